@@ -161,18 +161,19 @@ theorem update_predict_single_index (core : Core) (s : FState) (y : Series) (o :
 
 /-- shifting every time label of a history (training series, update batches, absolute horizons) by
 `k` shifts every label in every output and in the state by `k` and changes no value: one step -/
-theorem shift_equivariance_step (core : Core) (k : Int) (s : FState) (op : Op) :
-    step core .optional (Lem.shiftState k s) (Lem.shiftOp k op) =
-      (Lem.shiftState k (step core .optional s op).1, Lem.shiftOut k (step core .optional s op).2) :=
-  Lem.step_shift core k s op
+theorem shift_equivariance_step (core : Core) (mode : FhMode) (k : Int) (s : FState) (op : Op) :
+    step core mode (Lem.shiftState k s) (Lem.shiftOp k op) =
+      (Lem.shiftState k (step core mode s op).1, Lem.shiftOut k (step core mode s op).2) :=
+  Lem.step_shift core mode k s op
 
-/-- … and whole histories: for every forecaster (core) with the optional-horizon mixin, every
-history of fit / predict / update / update_predict / update_predict_single and every shift `k`.
-(For the required-horizon mixin the real check compares horizon VALUES only, so a relative and an
-absolute horizon with equal numbers are confused and equivariance fails there - see C20.) -/
-theorem shift_equivariance (core : Core) (k : Int) (s : FState) (ops : List Op) :
-    run core .optional (Lem.shiftState k s) (ops.map (Lem.shiftOp k)) =
-      (Lem.shiftState k (run core .optional s ops).1, (run core .optional s ops).2.map (Lem.shiftOut k)) := by
+/-- … and whole histories: for every forecaster (core), both horizon mixins, every history of
+fit / predict / update / update_predict / update_predict_single and every shift `k`.
+(For the required-horizon mixin this holds for the repaired code, which compares the KIND of the
+horizon as well as its values; the original values-only comparison confused a relative and an
+absolute horizon with equal numbers, which is not shift-equivariant - see C20's fixed finding.) -/
+theorem shift_equivariance (core : Core) (mode : FhMode) (k : Int) (s : FState) (ops : List Op) :
+    run core mode (Lem.shiftState k s) (ops.map (Lem.shiftOp k)) =
+      (Lem.shiftState k (run core mode s ops).1, (run core mode s ops).2.map (Lem.shiftOut k)) := by
   induction ops generalizing s with
   | nil => simp [run]
   | cons op ops ih =>
